@@ -233,7 +233,6 @@ class Fill(Doc):
         for doc in self.docs:
             if isinstance(doc, AlwaysBreak):
                 propagate_broken = True
-                doc = doc.doc
 
             if doc is NIL:
                 continue
